@@ -88,6 +88,11 @@ pub fn replay_case(case: &Value, tally: &mut Tally) {
                 out.push(("answers as the vector built by the library's own builder", Val::RL(d.clone()).answers(), Val::RL(v.clone()).answers()));
                 let probe = |x: &RLVector| -> Vec<Value> { let mut a: Vec<usize> = vec![0, 1, len / 2, len.saturating_sub(1), len, len + 1]; for (s, l) in runs.iter() { a.extend([s.saturating_sub(1), *s, s + l - 1, s + l]); } a.iter().map(|i| json!([x.rank(*i), if *i < len { json!(x.get(*i)) } else { json!(null) }, enc_pair(simple_sds::ops::PredSucc::predecessor(x, *i).next()), enc_pair(simple_sds::ops::PredSucc::successor(x, *i).next())])).collect() };
                 out.push(("rank / get / predecessor / successor around every run", json!(probe(&d)), json!(probe(&v))));
+                // The reader accepts any sufficient sample width; what the library WRITES for the structure it now holds must follow
+                // the document again (minimal sample width - the document leaves the writer of a run-length vector no choice), so the
+                // loaded structure is == to and serializes like the one made by the library's own builder.
+                out.push(("the loaded vector == the vector built by the library's own builder", json!(true), json!(v == d)));
+                out.push(("the loaded vector is written back as the library writes the same bits (minimal sample width)", json!(true), json!(to_bytes(&d) == to_bytes(&v))));
             },
             "wmcore" => {
                 let v = loaded!(WMCore);
